@@ -245,6 +245,15 @@ def recoveredOk (hist : List (List Entry)) (live : List Entry) (d : Nat) (rec : 
   else if !noResurrection hist rec then some "c18-resurrected-entry"
   else none
 
+/-- For the crash property it is enough that the log stays gap-free: besides the well-formed operations, a
+    from-scratch request (`prev = (0,0)`) may restart the log at any index ≥ 1, also below the purge boundary
+    (a leader that lost track of this follower resends from index 1). -/
+def wfOpCrash (p : Plain) (op : Op) : Bool :=
+  wfOp p op ||
+  (match op with
+   | .fca 0 0 (e :: es) _ => decide (0 < e.index) && contigFrom e.index (e :: es) && termsPos (e :: es)
+   | _ => false)
+
 /-- walk the case; `p` tracks well-formedness (resynchronised after each reopen), `hist` the logs seen so far -/
 def c18Walk : Plain → List (List Entry) → Snap → List Op → List (String × Snap) → Nat → Option String × Nat
   | _, _, _, [], _, n => (none, n)
@@ -259,7 +268,7 @@ def c18Walk : Plain → List (List Entry) → Snap → List Op → List (String 
          c18Walk { anchorI := ai, anchorT := aT, ents := o.ents } (o.ents :: hist) o ops recs (n + 1))
     | .close _ => c18Walk p (o.ents :: hist) o ops recs n
     | _ =>
-      if !wfOp p op then (none, n)
+      if !wfOpCrash p op then (none, n)
       else c18Walk (p.exec op).1 (o.ents :: hist) o ops recs n
 
 def emptySnap : Snap :=
